@@ -1109,6 +1109,10 @@ class SyncState:  # pylint: disable=too-many-instance-attributes, too-many-publi
             if ent.storage_id is not None:
                 if ent.is_trash:
                     self._storage.delete(tag, ent.storage_id)
+                    # the row is gone: forget its id (direct write, the hooked one would re-mark the entry dirty inside
+                    # the commit loop).  Otherwise a later write on this entry deletes or updates whatever row the
+                    # backend has meanwhile created under the reused id.
+                    ent._storage_id = None
                 else:
                     self._storage.update(tag, ent.serialize(), ent.storage_id)
             else:
